@@ -32,6 +32,7 @@ func TestMain(m *testing.M) {
 	kit.Register("html-start", htmlStartOracle)
 	kit.Register("link-tail", linkTailOracle)
 	kit.Register("block-start", blockStartOracle)
+	kit.Register("refdefs", refDefOracle)
 	kit.SetClassifier(classify)
 	kit.Describe("(a) spec-rewrite: every one of the 652 examples of spec.json x the licensed rewrites (final newline removed / doubled; an unrelated closed block with known HTML in front; behind; both), enumerated exhaustively; the expected side is spec.json's html (+ the known HTML of the added block). (b) constructed: a document model (paragraph, ATX/Setext heading, thematic break, indented and fenced code, block quote, tight/loose bullet and ordered lists, reference definitions, HTML blocks; text with escapes and entities, emphasis/strong nesting, code spans, inline/full/collapsed/shortcut links, images, autolinks, raw HTML, hard and soft breaks) is generated, rendered to expected HTML by a reference renderer and serialised to Markdown with a random choice among equivalent spellings (markers, ATX/Setext, fence character/length/indent, 0-3 columns of extra indentation, tabs reaching the same columns, lazy continuation, label case/whitespace variants, either emphasis delimiter, backslash/entity escapes); comparison modulo whitespace next to block tags. (c) emphasis: delimiter soup over {words, spaces, * and _ runs, punctuation} against a reference implementation of the spec's delimiter-run algorithm that is validated on the spec's emphasis examples at start-up. non-trivial: (a) every case; (b) documents with >= 2 block kinds and >= 1 non-default spelling; (c) inputs with >= 2 delimiter runs; distinct by hash of (source, expected)",
 		"configuration: core parser, WithUnsafe (and XHTML for the spec part, as in spec.json)", "the serialiser only emits spellings whose meaning is fixed by construction; choices excluded because of known findings F19/F20 are counted")
